@@ -1,5 +1,3 @@
-use std::collections::HashSet;
-
 use super::piece::Color;
 use super::piece::Kind as PieceKind;
 use super::ply::castling::CastlingKind;
@@ -467,7 +465,7 @@ impl BoardBuilder {
             history: self.history.clone(),
             bitboards: self.bitboards.build(),
 
-            position_history: HashSet::new(),
+            position_history: Vec::new(),
             zkey: ZKey::new(),
         };
         output.zkey = ZKey::from(&output);
